@@ -46,28 +46,63 @@ func (core *JApiCore) addMacro(d *directive.Directive) *jerr.JApiError {
 
 func (core *JApiCore) checkMacroForRecursion() *jerr.JApiError {
 	for macroName, macro := range core.macro {
-		if je := findPaste(macroName, macro); je != nil {
+		if je := core.findPaste(macroName, macro); je != nil {
 			return je
 		}
 	}
 	return nil
 }
 
-func findPaste(macroName string, d *directive.Directive) *jerr.JApiError {
+func (core *JApiCore) findPaste(macroName string, d *directive.Directive) *jerr.JApiError {
 	if d.Type() == directive.Paste {
-		switch d.NamedParameter("Name") {
+		name := d.NamedParameter("Name")
+		switch name {
 		case "":
 			return d.KeywordError(fmt.Sprintf("%s (%s)", jerr.RequiredParameterNotSpecified, "Name"))
 
 		case macroName:
 			return d.KeywordError(jerr.RecursionIsProhibited)
 		}
+
+		// The pasted macro must not lead back to this one through other macros.
+		if core.macroReaches(name, macroName, map[string]struct{}{}) {
+			return d.KeywordError(jerr.RecursionIsProhibited)
+		}
 	} else if d.Children != nil {
 		for _, c := range d.Children {
-			if je := findPaste(macroName, c); je != nil {
+			if je := core.findPaste(macroName, c); je != nil {
 				return je
 			}
 		}
 	}
 	return nil
+}
+
+// macroReaches reports whether expanding the macro "from" pastes the macro "target", directly or
+// through any chain of other macros.
+func (core *JApiCore) macroReaches(from, target string, visited map[string]struct{}) bool {
+	if _, ok := visited[from]; ok {
+		return false
+	}
+	visited[from] = struct{}{}
+
+	m, ok := core.macro[from]
+	if !ok {
+		return false
+	}
+	return core.pastesReach(m.Children, target, visited)
+}
+
+func (core *JApiCore) pastesReach(dd []*directive.Directive, target string, visited map[string]struct{}) bool {
+	for _, d := range dd {
+		if d.Type() == directive.Paste {
+			name := d.NamedParameter("Name")
+			if name == target || (name != "" && core.macroReaches(name, target, visited)) {
+				return true
+			}
+		} else if core.pastesReach(d.Children, target, visited) {
+			return true
+		}
+	}
+	return false
 }
